@@ -381,11 +381,57 @@ def _strategy(modes):
     return lambda: case()
 
 
+def decode_bytes(data):
+    """atheris data provider: bytes -> (messages, arrival list).  Byte 0: executor and number of messages; then per message
+    3 bytes (sender/destination selector, id selector, fragment count + type selector); the rest is the arrival list, one
+    byte per arrival: high bits select dequeue / plain / fragment, low bits message and fragment index."""
+    if len(data) < 6:
+        return None
+    mode = ("fresh", "reuse")[data[0] & 1]
+    nm = 1 + ((data[0] >> 1) % 3)
+    senders = [0o1, 0o2, 0o3]
+    msgs, pos, used = [], 1, set()
+    for i in range(nm):
+        if pos + 3 > len(data):
+            return None
+        a, b, c = data[pos:pos + 3]
+        pos += 3
+        frm, to = senders[a % 3], (0, 0o100)[(a >> 2) & 1]
+        fid = (7, 8, 9, 0xFFFF)[b % 4]
+        while (frm, fid, to) in used:
+            fid = (fid + 1) & 0xFFFF
+        used.add((frm, fid, to))
+        k = 2 + (c % 6)
+        msgs.append({"from": frm, "to": to, "id": fid, "type": (0, 1, 2, 3, 65, 131)[(c >> 3) % 6], "len": (k - 1) * 24 + 1 + (c >> 6), "seed": i + 1})
+    arr = []
+    for byte in data[pos:pos + 60]:
+        sel = byte >> 6
+        if sel == 0 and byte & 1:
+            arr.append(["deq"])
+        elif sel == 1:
+            arr.append(["p", byte & 3])
+        else:
+            mi = (byte >> 3) % nm
+            k = (msgs[mi]["len"] + 23) // 24
+            arr.append(["f", mi, (byte & 7) % k, "b"])
+    if not arr:
+        return None
+    plains = [{"from": 0o1, "to": 0, "id": 500 + i, "type": 0, "len": 1 + i, "seed": 90 + i} for i in range(4)]
+    return {"mode": mode, "msgs": msgs, "plains": plains, "arrivals": arr}
+
+
+def seed_inputs():
+    return [bytes([0, 0, 0, 0]) + bytes([0x80, 0x81]), bytes([3, 0, 0, 1, 1, 0, 0]) + bytes([0x80, 0x88, 0x81, 0x89, 0x01, 0x81]),
+            bytes([2, 4, 1, 9]) + bytes([0x80, 0x81, 0x82, 0x01, 0x82])]
+
+
 def parts(tier):
     if tier == "quick":
         return [Part("enum-small", "enum", _enum(False), exhaustive=True),
                 Part("generated", "gen", _strategy(["fresh", "reuse"]), n=5000),
-                Part("generated-over-the-air", "gen", _strategy(["air"]), n=160)]
+                Part("generated-over-the-air", "gen", _strategy(["air"]), n=160),
+                Part("atheris", "fuzz", lambda: {"decoder": "vlib.checks.c06_reassembly:decode_bytes", "seconds": 8, "max_len": 80}, n=0)]
     return [Part("enum-full", "enum", _enum(True), exhaustive=True),
             Part("generated", "gen", _strategy(["fresh", "reuse"]), n=300000),
-            Part("generated-over-the-air", "gen", _strategy(["air"]), n=5000)]
+            Part("generated-over-the-air", "gen", _strategy(["air"]), n=5000),
+            Part("atheris", "fuzz", lambda: {"decoder": "vlib.checks.c06_reassembly:decode_bytes", "seconds": 300, "max_len": 80}, n=0)]
